@@ -58,6 +58,14 @@ def parse_mutable_container(raw):
     return raw[468:468 + datalen]
 
 
+def dup_image_for_server(own_raw, other_raw):
+    """A container for this server holding the share data of `other_raw`: the header of `own_raw` (this server's
+    write enabler and leases), the other share's data, an empty extra-lease area."""
+    data = parse_mutable_container(other_raw)
+    return (own_raw[:84] + struct.pack(">Q", len(data)) + struct.pack(">Q", 468 + len(data)) + own_raw[100:468]
+            + data + b"\x00\x00\x00\x00")
+
+
 def share_version(data):
     """(format, seqnum, roothash) from the signed prefix, or None."""
     if data is None or len(data) < 41:
@@ -1364,12 +1372,30 @@ def gen_repair(seed, tier, focus="C14"):
     cfg["versions"] = [[ch.pick(W, ("size", v), sz[1:10]), ch.randint(W, ("pat", v), 1, 1 << 30)] for v in range(nver)]
     cfg["competing"] = ch.chance(W, "competing", 0.35)      # a second writer publishes the same seqnum as the last version
     layout = []
+    # bias some layouts towards the states the property singles out: an unrecoverable newer version (most shares rolled
+    # back to one older version) and two recoverable versions with the same sequence number
+    bias = ch.pick("faults", "bias", ["none", "none", "none", "mostly-older" if nver >= 2 else "none", "split-competing" if cfg["competing"] else "none"])
+    cfg["bias"] = bias
+    common_old = ch.randrange("faults", "common-old", 8)
     for sh in range(cfg["n"]):
-        fate = ch.weighted("faults", ("fate", sh), [("newest", 6), ("missing", 1.5), ("older", 1.5), ("competing", 1.5 if cfg["competing"] else 0),
-                                                    ("data-flip", 1.0)])
-        layout.append([sh, fate, ch.randrange("faults", ("oldv", sh), 8), ch.randrange("faults", ("p1", sh), 1 << 30)])
+        if bias == "mostly-older":
+            wts = [("newest", 2.5), ("missing", 0.5), ("older", 6), ("competing", 0), ("data-flip", 0.3)]
+        elif bias == "split-competing":
+            wts = [("newest", 4), ("missing", 0.7), ("older", 0.5), ("competing", 4), ("data-flip", 0.3)]
+        else:
+            wts = [("newest", 6), ("missing", 1.5), ("older", 1.5), ("competing", 1.5 if cfg["competing"] else 0), ("data-flip", 1.0)]
+        fate = ch.weighted("faults", ("fate", sh), wts)
+        layout.append([sh, fate, common_old if bias == "mostly-older" else ch.randrange("faults", ("oldv", sh), 8), ch.randrange("faults", ("p1", sh), 1 << 30)])
     cfg["layout"] = layout
-    ops = [["check", ch.chance(W, "verify", 0.5)], ["repair", ch.chance(W, "force", 0.4)]]
+    # a share number lost on its server and another share number doubled in its place: the number of share *copies*
+    # stays N while the number of distinct shares drops
+    if cfg["n"] >= 2 and ch.chance("faults", "dup", 0.3):
+        a, b = ch.sample("faults", "dup-pair", range(cfg["n"]), 2)
+        layout[a] = [a, "dup-of", b, 0]
+    if ch.chance(W, "car", 0.4):
+        ops = [["check", ch.chance(W, "verify", 0.5)], ["check_and_repair", ch.chance(W, "verify2", 0.4)]]
+    else:
+        ops = [["check", ch.chance(W, "verify", 0.5)], ["repair", ch.chance(W, "force", 0.4)]]
     return {"engine": "mutsim", "profile": "repair", "focus": "C14", "seed": seed, "cfg": cfg, "ops": ops, "faults": []}
 
 
@@ -1463,6 +1489,15 @@ def exec_repair(case):
                 new = mutate_mut_share(raw, "data", p1, 1, {})
                 with open(p, "wb") as f:
                     f.write(new)
+            elif fate == "dup-of":
+                other = newest_img.get(oldv)
+                srv = g.server_by_name(nm)
+                if other is not None and oldv not in srv.shares_of(si):
+                    os.unlink(p)
+                    # the container carries this server's own write enabler: keep the 468-byte container header of the share
+                    # being replaced (same server, same enabler, same leases) and take the share data from the other image
+                    with open(srv.share_path(si, oldv), "wb") as f:
+                        f.write(dup_image_for_server(state[(nm, sh)], other))
             probe("fate-" + fate)
         # ---- ground truth
         img_by_v = {v: {sh: parse_mutable_container(raw) for sh, raw in img.items()} for v, img in images}
@@ -1500,19 +1535,51 @@ def exec_repair(case):
                     bad("healthy", "check(verify=%s).is_healthy()=%s; ground truth: versions %r (recoverable: %d), N=%d k=%d, layout=%r" % (
                         verify, cr.is_healthy(), {("seq%d" % v[1]): sorted(s_) for v, s_ in t.items()}, len(rec), n, k, cfg["layout"]))
             else:
-                force = op[1]
+                car = (op[0] == "check_and_repair")
+                force = False if car else op[1]
                 t = truth(False)       # repair works from a servermap (prefix-level knowledge)
                 rec = [v for v, shs in t.items() if len(shs) >= k]
                 best_seq = max([v[1] for v in rec] or [-1])
                 unrec_newer = any(v[1] > best_seq and len(shs) < k for v, shs in t.items()) and bool(rec)
                 needs_merge = len([v for v in rec if v[1] == best_seq]) > 1
-                stc, cr = run(node.check(Monitor(), verify=False), 300_000)
-                if stc != "ok":
-                    continue
-                str_, rr = run(node.repair(cr, force=force), 400_000)
-                settle(300_000)
-                after = {(s.name, shnum): raw for s in g.servers for shnum, raw in s.shares_of(si).items()}
                 must_force = unrec_newer or needs_merge
+                if car:
+                    # the one-call form: check, then repair what is unhealthy -- never forced
+                    str_, crr = run(node.check_and_repair(Monitor(), verify=op[1]), 500_000)
+                    settle(300_000)
+                    after = {(s.name, shnum): raw for s in g.servers for shnum, raw in s.shares_of(si).items()}
+                    probe("check_and_repair-%s" % ("must-force-layout" if must_force else "plain"))
+                    if str_ != "ok":
+                        probe("check_and_repair-err-" + (err_name(crr) if str_ == "err" else str_))
+                        if after != before and must_force:
+                            bad("repair-without-force", "check_and_repair failed (%s) yet share files changed although %s" % (
+                                err_name(crr) if str_ == "err" else str_, "an unrecoverable newer version exists" if unrec_newer else "two recoverable versions share the highest seqnum"))
+                        continue
+                    if must_force:
+                        if after != before:
+                            bad("repair-without-force", "check_and_repair (which never forces) rewrote shares although %s" % (
+                                "an unrecoverable newer version exists" if unrec_newer else "two recoverable versions share the highest seqnum"))
+                        continue
+                    if not crr.get_repair_attempted():
+                        probe("check_and_repair-no-repair-attempted")
+                        tv = truth(op[1])
+                        recv = [v for v, shs in tv.items() if len(shs) >= k]
+                        if rec and len(recv) == 1 and len(tv[recv[0]]) < n and len(truth(False)) == 1:
+                            bad("unhealthy-not-repaired", "check_and_repair(verify=%s) attempted no repair although only %d of N=%d distinct shares "
+                                "of the single version are good" % (op[1], len(tv[recv[0]]), n))
+                        continue
+                    # judge the repair as below
+                    class _RR(object):
+                        def get_successful(self_):
+                            return crr.get_repair_successful()
+                    rr = _RR()
+                else:
+                    stc, cr = run(node.check(Monitor(), verify=False), 300_000)
+                    if stc != "ok":
+                        continue
+                    str_, rr = run(node.repair(cr, force=force), 400_000)
+                    settle(300_000)
+                    after = {(s.name, shnum): raw for s in g.servers for shnum, raw in s.shares_of(si).items()}
                 if str_ == "err" and rr.check(MustForceRepairError):
                     probe("must-force-raised")
                     if not must_force:
